@@ -1,5 +1,7 @@
 import Girc.Spec.Sim
 import Girc.Proofs.InvHandlers
+import Girc.Proofs.SimModeFlag
+import Girc.Proofs.SimModeState
 /-
   C04 proofs, part 6: MODE / RPL_CHANNELMODEIS. The implementation parses the whole flag string
   against the channel's CHANMODES classes, applies the settings, then walks the parsed list again
@@ -8,9 +10,168 @@ import Girc.Proofs.InvHandlers
 -/
 namespace Girc.Proofs.SimMode
 open Girc Girc.Model Girc.Spec
+open Girc.Proofs.InvBase Girc.Proofs.InvHandlers
+
+/-- The channel as `handleMODE` stores it after `Apply`. -/
+def applied (ch : Channel) (changes : List CMode) : Channel := { ch with modes := ch.modes.apply changes }
+
+theorem applied_nil (ch : Channel) : applied ch [] = ch := rfl
+
+theorem applied_cons (ch : Channel) (m : CMode) (cs : List CMode) :
+    applied ch (m :: cs) =
+      applied { ch with modes := { ch.modes with modes := applyOne ch.modes.modes m } } cs := rfl
+
+/-- The reference's channel update. -/
+def setModesR (r : Ref) (k : Bytes) (rch : RChan) (ms : List (Byte × Bytes)) : Ref :=
+  { r with chans := AMap.set r.chans k { rch with modes := ms } }
+
+/-- The reference's optional privilege update. -/
+def privStep (r : Ref) (k : Bytes) (priv : Option (Byte × Bytes × Bool)) : Ref :=
+  match priv with
+  | some pr => r.applyPriv k pr
+  | none => r
+
+/-- One ordinary flag, both sides. -/
+theorem sim_flag {st : St} {r : Ref} {k : Bytes} {ch : Channel} (h : Sim st r)
+    (hc : AMap.get? st.channels k = some ch) (m : CMode) :
+    Sim (modePerms ch.name ch.modes.listArgs
+          (setChannel st k { ch with modes := { ch.modes with modes := applyOne ch.modes.modes m } }) m)
+      (privStep (setModesR r k (chanView ch) ((applyOne ch.modes.modes m).map mview)) k
+        (if m.setting || ch.modes.listArgs.contains m.name then none else some (m.name, m.args, m.add))) := by
+  have hk : k = fold ch.name := h.inv.chanKey k ch (get?_some_mem hc)
+  have h1 := sim_setModes h hc (applyOne ch.modes.modes m)
+    (applyOne_wf _ m (h.chanModesWF k ch hc).1)
+  by_cases hskip : (m.setting || ch.modes.listArgs.contains m.name) = true
+  · rw [if_pos hskip, modePerms_skip _ _ _ _ hskip]
+    exact h1
+  · rw [if_neg hskip]
+    rw [Bool.or_eq_true, not_or] at hskip
+    have hs : m.setting = false := by simpa using hskip.1
+    have hl : ch.modes.listArgs.contains m.name = false := by simpa using hskip.2
+    have h2 := sim_modePerms h1 ch.name ch.modes.listArgs m hs hl
+    rw [← hk] at h2
+    exact h2
+
+/-- The lock-step induction over the flag string. -/
+theorem sim_modeLoop (k : Bytes) : ∀ (flags : Bytes) (add : Bool) (args : List Bytes) (st : St) (r : Ref)
+    (ch : Channel), Sim st r → AMap.get? st.channels k = some ch →
+    Sim ((ch.modes.parseAux flags add args).foldl (modePerms ch.name ch.modes.listArgs)
+          (setChannel st k (applied ch (ch.modes.parseAux flags add args))))
+      (Ref.modeString flags add args r k) := by
+  intro flags
+  induction flags with
+  | nil =>
+    intro add args st r ch h hc
+    rw [parseAux_nil, Ref.modeString, List.foldl_nil, applied_nil]
+    exact sim_setChannel_self h hc
+  | cons f rest ih =>
+    intro add args st r ch h hc
+    by_cases h1 : f = 0x2B
+    · subst h1
+      rw [parseAux_plus, Ref.modeString, if_pos rfl]
+      exact ih true args st r ch h hc
+    by_cases h2 : f = 0x2D
+    · subst h2
+      rw [parseAux_minus, Ref.modeString, if_neg (by decide), if_pos rfl]
+      exact ih false args st r ch h hc
+    have hrc : AMap.get? r.chans k = some (chanView ch) := by rw [← h.chans k, hc]; rfl
+    rw [parseAux_flag _ _ _ _ _ h1 h2, Ref.modeString, if_neg h1, if_neg h2, hrc]
+    dsimp only
+    rw [modeFlag_eq ch (h.chanModesWF k ch hc)]
+    dsimp only
+    generalize hp : pstep ch.modes add f args = p
+    obtain ⟨m, args'⟩ := p
+    dsimp only
+    have hname : m.name = f := by
+      have : (pstep ch.modes add f args).1.name = f := by
+        unfold pstep; split <;> rfl
+      rw [hp] at this; exact this
+    have hadd : m.add = add := by
+      have : (pstep ch.modes add f args).1.add = add := by
+        unfold pstep; split <;> rfl
+      rw [hp] at this; exact this
+    -- one step on both sides
+    subst hname
+    subst hadd
+    have hstep := sim_flag h hc m
+    -- the implementation side, reshaped
+    generalize hch1 : ({ ch with modes := { ch.modes with modes := applyOne ch.modes.modes m } } : Channel) = ch1
+      at hstep
+    have hc1 : AMap.get? (modePerms ch.name ch.modes.listArgs (setChannel st k ch1) m).channels k = some ch1 := by
+      rw [modePerms_channels]
+      exact get?_set_self _ _ _
+    have hih := ih m.add args' _ _ ch1 hstep hc1
+    have hpa : ch1.modes.parseAux rest m.add args' = ch.modes.parseAux rest m.add args' := by
+      rw [← hch1]; exact parseAux_modes _ _ _ _ _
+    have hnm : ch1.name = ch.name := by rw [← hch1]
+    have hla : ch1.modes.listArgs = ch.modes.listArgs := by rw [← hch1]
+    rw [hpa, hnm, hla] at hih
+    rw [List.foldl_cons, applied_cons, modePerms_setChannel]
+    rw [modePerms_setChannel] at hih
+    have hss : ∀ (s : St) (a b : Channel), setChannel (setChannel s k a) k b = setChannel s k b := by
+      intro s a b; unfold setChannel; dsimp only; rw [set_set]
+    rw [hss, ← hch1] at hih
+    exact hih
+
+theorem cmdStep_mode (cfg : Cfg) (r : Ref) (e : Event) (hcmd : e.command = cMODE ∨ e.command = c324) :
+    r.cmdStep cfg e =
+      match (if e.command = c324 && e.params.length > 2 then e.params.drop 1 else e.params) with
+      | target :: flags :: args =>
+        if isValidChannel target && AMap.contains r.chans (fold target)
+          then Ref.modeString flags true args r (fold target) else r
+      | _ => r := by
+  have hor : (e.command = cMODE || e.command = c324) = true := by
+    rcases hcmd with h | h <;> simp [h]
+  unfold Ref.cmdStep
+  dsimp only
+  have n1 : e.command ≠ c001 := by rcases hcmd with h | h <;> rw [h] <;> decide
+  have n2 : e.command ≠ cJOIN := by rcases hcmd with h | h <;> rw [h] <;> decide
+  have n3 : e.command ≠ cPART := by rcases hcmd with h | h <;> rw [h] <;> decide
+  have n4 : e.command ≠ cKICK := by rcases hcmd with h | h <;> rw [h] <;> decide
+  have n5 : e.command ≠ cQUIT := by rcases hcmd with h | h <;> rw [h] <;> decide
+  have n6 : e.command ≠ cNICK := by rcases hcmd with h | h <;> rw [h] <;> decide
+  have n7 : e.command ≠ c353 := by rcases hcmd with h | h <;> rw [h] <;> decide
+  rw [if_neg n1, if_neg n2, if_neg n3, if_neg n4, if_neg n5, if_neg n6, if_neg n7, if_pos hor]
+  rfl
 
 theorem sim_MODE {st : St} {r : Ref} (cfg : Cfg) (e : Event) (h : Sim st r)
     (hcmd : e.command = cMODE ∨ e.command = c324) :
-    ∃ st', handleMODE st e = .ok st' ∧ Sim st' (r.cmdStep cfg e) := by sorry
+    ∃ st', handleMODE st e = .ok st' ∧ Sim st' (r.cmdStep cfg e) := by
+  rw [cmdStep_mode cfg r e hcmd]
+  unfold handleMODE
+  extract_lets ps
+  show ∃ st', _ = Except.ok st' ∧ Sim st' (match ps with
+      | target :: flags :: args =>
+        if isValidChannel target && AMap.contains r.chans (fold target)
+          then Ref.modeString flags true args r (fold target) else r
+      | _ => r)
+  clear_value ps
+  match ps with
+  | [] => exact ⟨st, rfl, h⟩
+  | [_] => exact ⟨st, rfl, h⟩
+  | target :: flags :: args =>
+    have hlen : ¬ (target :: flags :: args).length < 2 := by simp
+    rw [if_neg hlen, idx_ok _ 0 (by simp), ok_bind]
+    dsimp only [List.getElem_cons_zero]
+    by_cases hv : isValidChannel target = true
+    · simp only [hv, Bool.not_true, Bool.false_eq_true, if_false, Bool.true_and]
+      rw [lookupChannel_eq]
+      cases hc : AMap.get? st.channels (fold target) with
+      | none =>
+        have : AMap.contains r.chans (fold target) = false := by
+          rw [contains_eq_false_iff, ← h.chans, hc]; rfl
+        rw [this]
+        exact ⟨st, rfl, h⟩
+      | some ch =>
+        have : AMap.contains r.chans (fold target) = true := by
+          rw [contains_iff_get?]; exact ⟨chanView ch, by rw [← h.chans, hc]; rfl⟩
+        rw [this]
+        dsimp only
+        rw [idx_ok _ 1 (by simp), ok_bind]
+        refine ⟨_, rfl, ?_⟩
+        exact sim_modeLoop (fold target) flags true args st r ch h hc
+    · have hv' : isValidChannel target = false := by simpa using hv
+      simp only [hv', Bool.not_false, if_true, Bool.false_and, Bool.false_eq_true, if_false]
+      exact ⟨st, rfl, h⟩
 
 end Girc.Proofs.SimMode
